@@ -106,3 +106,35 @@ Example C01_nonvacuous :
   option_map (fun g => sort_n (map fst (bg_slots g))) (build c01_world (c01_opts KCodeOnly) (empty_bgraph KCodeOnly) [1] [])
     = Some [1; 2; 3; 4; 5].
 Proof. split; vm_compute; reflexivity. Qed.
+
+(* ---------- stage B2: the registry (JSR) paths, Model/Jsr.v ----------
+   NOTHING REACHABLE IS ABSENT, for every registry world (any answers of the
+   loader and the registry, with or without a restart): after a completed build
+   every root and every dependency target of every module entry is settled -
+   following the recorded redirects from it reaches an entry (a module, an
+   external module or an error entry).  For a jsr: specifier that means: it has
+   an error entry, or a redirect to the export URL, which is settled in turn.
+   Invariant over every step of the build loop (Proofs/JsrClosure.v): module
+   entries and requested specifiers are settled up to the specifiers whose
+   settling is still queued (pending jsr: resolutions, dynamic branches); queued
+   loads are for distinct specifiers that have an entry and no redirect. *)
+From DG Require Model.Jsr Proofs.JsrClosure.
+
+Theorem C01_registry_complete : forall W o roots g,
+  Jsr.jbuild W o roots = Some g ->
+  (forall r, In r roots -> JsrClosure.SettledJ g r) /\
+  (forall s src deps d, lookup s (Jsr.jg_slots g) = Some (Jsr.JsMod src deps) -> In d deps ->
+     JsrClosure.SettledJ g (Jsr.jd_target d)).
+Proof. exact JsrClosure.jbuild_complete. Qed.
+Print Assumptions C01_registry_complete.
+
+(* SettledJ g t unfolds to: t has an entry, or t is redirected to a settled specifier *)
+Theorem C01_registry_settled_unfold : forall g t,
+  JsrClosure.SettledJ g t <-> (has_key t (Jsr.jg_slots g) = true \/
+                               exists r, lookup t (Jsr.jg_redirects g) = Some r /\ JsrClosure.SettledJ g r).
+Proof.
+  intros g t. unfold JsrClosure.SettledJ. split.
+  - intro H. destruct H as [t Hk | t [] | t r Hl Hr]; [left; exact Hk | right; exists r; split; assumption].
+  - intros [Hk|[r [Hl Hr]]]; [apply JsrClosure.SJ_slot; exact Hk | eapply JsrClosure.SJ_red; eassumption].
+Qed.
+Print Assumptions C01_registry_settled_unfold.
